@@ -1057,7 +1057,7 @@ def WhenAll_dtor_FirstFail : String :=
   "~All<yaclib::FailPolicy::FirstFail, type-parameter-0-0, type-parameter-0-1, type-parameter-0-2>() { if (_p.Valid()) { var result; result.reserve(_cores.size()); forrange { result.push_back(core.Retire().Value()) }; move(_p).Set(move(result)) } else { forrange { core.DecRef() } } }"
 
 def WhenAllTuple_Consume : String :=
-  "Consume(result) { (get(_tuple) = forward(result)) } || Consume(result) { if ((((!result) && (!_done.load(rlx))) && (!_done.exchange(true, acq_rel)))) { if (operator==(result.State(), Error)) { move(_p).Set(forward(result).Error()) } else { move(_p).Set(forward(result).Exception()) } } else { (get(_tuple) = forward(result).Value()) } }"
+  "Consume(result) { (get(_tuple) = forward(result)) } || Consume(result) { if ((((!result) && (!_done.load(rlx))) && (!_done.exchange(true, acq_rel)))) { if (operator==(result.State(), Error)) { move(_p).Set(forward(result).Error()) } else { move(_p).Set(forward(result).Exception()) } } else if (result) { (get(_tuple) = forward(result).Value()) } }"
 
 def WhenAllTuple_dtor_None : String :=
   "~AllTuple<yaclib::FailPolicy::None, type-parameter-0-0, type-parameter-0-1, type-parameter-0-2>() { move(_p).Set(move(_tuple)) }"
